@@ -341,7 +341,47 @@ def stepGv (g : GSt) (seen : List String) (f : List String) : Option (GSt × Lis
 
 end Gv
 
+/-! app life-cycle probes: `lc <kind> <addrclass> <addrname>` -/
+def accKind? : String → Option AccKind
+  | "BaseAccount" => some .base | "EthAccount" => some .eth | "ModuleAccount" => some .module
+  | "ContinuousVestingAccount" => some .contVesting | "DelayedVestingAccount" => some .delayedVesting
+  | "PeriodicVestingAccount" => some .periodicVesting | "PermanentLockedAccount" => some .permanentLocked | _ => none
+
+/-- module accounts looked up with `GetModuleAccount` while the chain is initialised. -/
+def initModules : List String :=
+  ["fee_collector", "distribution", "bonded_tokens_pool", "not_bonded_tokens_pool", "gov", "transfer", "packet", "aggregate"]
+
+def addrClass? (cls name : String) : Option AddrClass :=
+  match cls with
+  | "syscontract" => some .sysContract
+  | "control" => some .control
+  | "rvesting-pool" => some .moduleLazy
+  | "module" => some (if initModules.contains name then .moduleInit else .moduleLazy)
+  | _ => none
+
+def stepLc (f : List String) : Option String :=
+  match f with
+  | [k, cls, name] => do
+    let k ← accKind? k
+    let a ← addrClass? cls name
+    match lcValidate k a with
+    | .ok _ =>
+      match lcInitChain k a with
+      | .ok _ =>
+        match lcUpgrade k a with
+        | .ok _ => pure "v=ok init=ok upgrade=ok block=ok"
+        | _ => pure "v=ok init=ok upgrade=panic block=-"
+      | _ => pure "v=ok init=panic upgrade=- block=-"
+    | .err _ => pure "v=err init=- upgrade=- block=-"
+    | .panic _ => pure "v=panic init=- upgrade=- block=-"
+  | _ => none
+
 def step (st : St) (line : String) : St × String :=
+  if line.startsWith "lc " then
+    match stepLc (fields (line.drop 3).toString) with
+    | some o => (st, o)
+    | none => (st, "bad-op")
+  else
   if line.startsWith "gv " then
     match Gv.stepGv st.g st.gseen (modelFields (line.drop 3).toString) with
     | some (g', seen', o) => ({ st with g := g', gseen := seen' }, o)
